@@ -251,6 +251,14 @@ def c07_cases(draw, max_base=3, max_rxn=4, max_spect=2):
     nb = draw(st.integers(1, max_base))
     base = draw(st.lists(st.integers(0, NBASE - 1), min_size=nb, max_size=nb, unique=True))
     nr = draw(st.integers(1, max_rxn))
+    # drawn early (Hypothesis simplifies the tail of long draw sequences); indices are taken modulo nr / ns by the check
+    pert = {
+        "k_idx": draw(st.integers(0, nr - 1)), "k_fac": draw(st.sampled_from(K_FACTORS)),
+        "init_sp": draw(st.integers(0, 11)), "init_shift": draw(st.sampled_from(INIT_SHIFTS)),
+        "state_sp": draw(st.integers(0, 11)), "state_fac": draw(st.sampled_from(STATE_FACTORS)),
+        "dir_idx": draw(st.integers(0, nr - 1)), "dir_frac": draw(st.sampled_from(DIR_FRACS)),
+    }
+    xi = [draw(st.sampled_from(XI_FRACS)) for _ in range(nr)]
     rxns = []
     seen = set()
     for j in range(nr):
@@ -279,13 +287,6 @@ def c07_cases(draw, max_base=3, max_rxn=4, max_spect=2):
         mant = draw(st.integers(1, 99))
         dec = draw(st.integers(0, 6))
         ceq[s] = fstr(F(mant, 10 ** dec))
-    xi = [draw(st.sampled_from(XI_FRACS)) for _ in range(nr)]
-    pert = {
-        "k_idx": draw(st.integers(0, nr - 1)), "k_fac": draw(st.sampled_from(K_FACTORS)),
-        "init_sp": draw(st.integers(0, len(species) - 1)), "init_shift": draw(st.sampled_from(INIT_SHIFTS)),
-        "state_sp": draw(st.integers(0, len(species) - 1)), "state_fac": draw(st.sampled_from(STATE_FACTORS)),
-        "dir_idx": draw(st.integers(0, nr - 1)), "dir_frac": draw(st.sampled_from(DIR_FRACS)),
-    }
     return {"species": species, "rxns": rxns, "ceq": ceq, "xi": xi, "pert": pert}
 
 
@@ -346,15 +347,17 @@ def _c08_body(draw, max_eq=4):
 
 @st.composite
 def c08_cases(draw, chains=CHAINS):
+    chain = draw(st.sampled_from(chains))      # drawn first: Hypothesis simplifies the tail of long draw sequences
     body = _c08_body(draw)
-    body["chain"] = draw(st.sampled_from(chains))
+    body["chain"] = chain
     return body
 
 
 @st.composite
 def c08_single(draw):
+    chain = draw(st.sampled_from(["default", "loglin", "lin"]))
     body = _c08_body(draw, max_eq=1)
-    body["chain"] = draw(st.sampled_from(["default", "loglin", "lin"]))
+    body["chain"] = chain
     return body
 
 
@@ -388,6 +391,8 @@ class ModelPrecip(object):
 
 @st.composite
 def precip_cases(draw, salts=(0, 1, 2, 3)):
+    chain = draw(st.sampled_from(PRECIP_CHAINS))
+    reverse = draw(st.booleans())
     salt = draw(st.sampled_from(list(salts)))
     lksp = -draw(st.integers(0, 4000))                 # Ksp over 4 decades: [1e-4, 1]
     shape = draw(st.sampled_from(PRECIP_SHAPES))
@@ -398,4 +403,4 @@ def precip_cases(draw, salts=(0, 1, 2, 3)):
     an = amount() if shape in ("ions", "ions+solid", "anion+solid") else None
     sol = amount() if shape != "ions" else None
     return {"salt": salt, "lksp": lksp, "amounts": [cat, an, sol], "shape": shape,
-            "chain": draw(st.sampled_from(PRECIP_CHAINS)), "reverse": draw(st.booleans())}
+            "chain": chain, "reverse": reverse}
